@@ -46,11 +46,21 @@ func (s *simpleServer) exchange(chunks ...[]byte) ([][]byte, outcome) {
 	c.CloseWrite()
 	// the connection goroutine exists once the server has read from the
 	// connection; it is over when no goroutine is inside accept() any more
+	lastReads := 0
 	o := awaitCond(func() bool {
 		c.out.mu.Lock()
-		started := c.out.reads > 0
+		reads := c.out.reads
 		c.out.mu.Unlock()
-		return started && goroutinesWith(simpleAcceptFrame) == 0
+		if reads == 0 {
+			return false
+		}
+		if reads != lastReads {
+			// still consuming its input: no goroutine dump now (a dump stops the
+			// world and unwinds every stack, however deep)
+			lastReads = reads
+			return false
+		}
+		return goroutinesWith(simpleAcceptFrame) == 0
 	}, func() (bool, string) {
 		// nobody will ever take the connection if the accept loop is gone
 		return goroutinesWith(simpleAcceptLoop) > 0, simpleAcceptLoop
